@@ -96,8 +96,8 @@ def build_pubfile(w, work, pubs):
 
 
 class Extender:
-    def __init__(self, rng, cal):
-        self.rng, self.cal = rng, cal
+    def __init__(self, rng, cal, key=KEY):
+        self.rng, self.cal, self.key = rng, cal, key
         self.behaviour = 'honest'
         self.root = None
         self.src_cal = None
@@ -114,7 +114,7 @@ class Extender:
         t, p = req['aggr_time'], req.get('pub_time')
         pp = p if p is not None else t + 5000
         if pp < t:
-            return 200, 0, S.ext_response(req, None, KEY, status=0x104, errmsg='range')
+            return 200, 0, S.ext_response(req, None, self.key, status=0x104, errmsg='range')
         tt = t
         if b == 'other-aggr-time':
             tt = t + 1 if t + 1 <= pp else t - 1
@@ -149,18 +149,19 @@ class Extender:
             else:
                 chain.links.append((False, gen.rnd_imprint(rng, 1)))
         if b == 'status-error':
-            return 200, 0, S.ext_response(req, None, KEY, status=rng.choice([0x101, 0x104, 0x200, 0x300]), errmsg='no')
+            return 200, 0, S.ext_response(req, None, self.key, status=rng.choice([0x101, 0x104, 0x200, 0x300]), errmsg='no')
         if b == 'error-pdu':
-            return 200, 0, S.error_pdu('ext', 2, KEY)
+            return 200, 0, S.error_pdu('ext', 2, self.key)
         if b == 'no-reply':
             return 0, 28, b''
         kw = {}
         rid = req['req_id']
         if b == 'bad-mac':
-            kw['mac_key'] = b'other'
+            # (a long password: the other key shares everything but its last character, i.e. more than one hash block, with the right one)
+            kw['mac_key'] = b'other' if len(self.key) <= 64 else self.key[:-1] + b'?'
         if b == 'wrong-id':
             rid += 1
-        return 200, 0, S.ext_response(req, chain, KEY, req_id=rid, last_time=pp, **kw)
+        return 200, 0, S.ext_response(req, chain, self.key, req_id=rid, last_time=pp, **kw)
 
 
 def expect(policy, sc):
@@ -294,7 +295,9 @@ def worker(job, r):
     exe, env, work, seed, n, w = job
     WORLD = w
     rng = random.Random(seed)
-    srv = Extender(rng, w.cal)
+    # every third worker talks to an extender whose password is longer than one block of the MAC's hash function (such a key is hashed first)
+    key = KEY if seed % 3 else ('c04-long-service-password/%d/' % seed).encode().ljust(64 + 1 + seed % 70, b'k')
+    srv = Extender(rng, w.cal, key)
 
     def responder(sess, kind, info):
         if kind == 'http':
@@ -304,7 +307,8 @@ def worker(job, r):
     sess = net.Session(exe, env, work, responder)
     c = sess.cmd
     c('ctx 0')
-    c('set_ext 0 ksi+http://ext.example/x anon anon')
+    c('set_ext 0 ksi+http://ext.example/x anon %s' % key.decode())
+    r.count('sessions_with_long_password' if len(key) > 64 else 'sessions_with_short_password')
     kinds = ['nocal', 'cal', 'pub', 'auth:ok', 'auth:exact', 'auth:before', 'auth:after', 'auth:absent', 'auth:badsig', 'auth:otherdata', 'auth:ecok', 'auth:ecjunk', 'auth:ecother']
     for i in range(n):
         kind = rng.choice(kinds)
